@@ -624,6 +624,8 @@ class Segment:
             tags.extend(rm.case_tags(src_ref))
         if fentry and fentry.get("tags"):
             tags.extend(fentry["tags"])
+        if fentry and fentry.get("state") == "peer" and fentry["expect"].get("ref") is not None:
+            tags.extend(rm.case_tags(fentry["expect"]["ref"]))
         if fentry and fentry.get("gen", 0) >= 2:
             tags.append("hist.gen_ge2")
         rkey = "R:%s:%s:%s" % (fmt, rel, op.get("pathstyle", "abs"))
